@@ -243,6 +243,8 @@ func runC12(res *Result, d *Driver, tier string, seed uint64) {
 			{"work directory cannot be created (below a file)", container.Builder{Mounts: mount.NewBuilder().WithBind("/dev/null", "dev/null", false).Mounts, WorkDir: "/dev/null/w"}},
 			{"init command fails", container.Builder{Mounts: mount.NewBuilder().WithBind("/dev/null", "dev/null", false).Mounts, InitCommand: []string{"/nonexistent-verif-c12"}}},
 			{"container init cannot be started", container.Builder{ExecFile: "/nonexistent-verif-c12"}},
+			// the host-side preparation fails after the init has been started and has answered
+			{"temporary root directory cannot be made", container.Builder{Root: "/nonexistent-verif-c12", TmpRoot: "ct-*"}},
 		}
 		reps := 3
 		if tier == "thorough" {
@@ -250,7 +252,18 @@ func runC12(res *Result, d *Driver, tier string, seed uint64) {
 		}
 		for r := 0; r < reps; r++ {
 			for _, c := range bad {
-				e, err := newEnv(c.b)
+				var e *Env
+				var err error
+				if c.b.Root != "" {
+					// the root is part of the case: build as given
+					var ce container.Environment
+					if ce, err = c.b.Build(); err == nil {
+						ce.Destroy()
+						err = fmt.Errorf("accepted")
+					}
+				} else {
+					e, err = newEnv(c.b)
+				}
 				res.Case(fmt.Sprintf("refused build %d: %s", r, c.name), true, "build-refused")
 				if err == nil {
 					// accepted on this machine: an ordinary cycle
